@@ -13,7 +13,7 @@ from .tlc import MachineryError
 
 REGISTRY = {
     "C01": "cascade", "C05": "cascade", "C06": "cascade",
-    "C08": "table", "C07": "pockets", "C03": "utility", "C04": "utility", "C19": "streams", "C20": "hx", "C13": "graphs", "C18": "heatpump", "C17": "curves", "C10": "zonetree", "C11": "service_history", "C16": "service_history", "C02": "site", "C09": "site", "C12": "site", "C14": "site",
+    "C08": "table", "C07": "pockets", "C03": "utility", "C04": "utility", "C19": "streams", "C20": "hx", "C15": "area", "C13": "graphs", "C18": "heatpump", "C17": "curves", "C10": "zonetree", "C11": "service_history", "C16": "service_history", "C02": "site", "C09": "site", "C12": "site", "C14": "site",
 }
 
 
